@@ -881,6 +881,8 @@ func (v *Decoder) walkNode(ectx evaluationContext, n *html.Node) error {
 				}
 
 				listMapping[relValue].Objects = append(listMapping[relValue].Objects, currentObjectResource)
+
+				attrRelValid = true
 			}
 		}
 
